@@ -43,7 +43,7 @@ impl Profile for CustomChain {
         sg.funds_pm = *rng.pick(&[0, 200]);
         sg.typed_pct = *rng.pick(&[0, 50, 100]);
         sg.max_depth = rng.range(0, 2) as u32;
-        let mut tg = TrafficGen { sg, codes: &wp.codes };
+        let mut tg = TrafficGen { sg, codes: &wp.codes, cross_migrate: false, model: vec![] };
         let n = rng.range(3, 12);
         (0..n).filter_map(|_| tg.op(rng)).collect()
     }
